@@ -765,6 +765,12 @@ def rule_canon(rep, inst, shift_flows, R="C03.canon"):
                     elif f in ("copy", "copy_n", "copy_backward", "move") and touches:
                         nev += 1
                         state, why, at = DIRTY, "std::%s of foreign blocks into the buffer" % f, n
+                    elif f in ("any_of", "all_of", "none_of", "equal", "find", "find_if", "find_if_not", "count", "count_if", "accumulate", "mismatch", "distance",
+                               "lexicographical_compare", "is_sorted", "min", "max") and touches:
+                        nev += 1      # read-only algorithm over the blocks
+                    elif f in ("transform", "generate", "generate_n", "for_each", "iota", "replace", "replace_if", "swap_ranges", "rotate", "reverse") and touches:
+                        nev += 1
+                        state, why, at = DIRTY, "std::%s rewrites the blocks with values that may have bits >= size() set" % f, n
                     elif f == "swap" and touches:
                         nev += 1      # swaps buffer with another bitset's; the matching size swap is C03.blocks' business
                     elif via_bits:
@@ -861,6 +867,9 @@ def shift_analysis(rep, inst):
                     return a + b if t[1] == "+" else a - b
                 return None
 
+            def lin_of_init(vd):
+                return lin_of(ir.sx(ir.ekids(vd)[-1]))
+
             def timesW(l):
                 out = Lin()
                 for k, v in l.items():
@@ -873,31 +882,108 @@ def shift_analysis(rep, inst):
                 return out
 
             want = Lin({"divW": sign, "r": sign})
-            # guard: pos >= m_size -> reset()
+            # guard: every path on which pos >= m_size holds (or is not excluded) must clear the bitset without moving blocks, and every
+            # block store must sit on a path that established pos < m_size
             paths = flow.function_paths(fn, with_ctor_inits=False)
-            g_ok = False
+            lt0 = local_terms(fn)
+
+            def gsym(t):
+                c = canon(t, lt0)
+                if c == M_SIZE:
+                    return "S"
+                if c == ("ref", pos.get("name")):
+                    return "pos"
+                return None
+            g_bad = None
+            saw_clear = False
             for path in paths:
-                conds = [s for s in path if s[0] == "cond"]
-                if conds and ir.sx(conds[0][1]) == ("bin", ">=", ("ref", pos.get("name")), ("mem", ("this",), "m_size")) and conds[0][2]:
-                    evs = [s[1] for s in path if s[0] == "ev"]
-                    g_ok = any(this_call(e, {"reset"}) for e in evs) and not any(classify_store(e, d, inst, aliases, linit, {}) for e in evs)
-            if g_ok:
+                facts = []
+                for st in path:
+                    if st[0] == "cond":
+                        c = canon(ir.sx(st[1]), lt0)
+                        if c[0] == "bin" and c[1] in linear.NEG:
+                            op = c[1] if st[2] else linear.NEG[c[1]]
+                            l_, r_ = linear.lin(c[2], gsym), linear.lin(c[3], gsym)
+                            if l_ is not None and r_ is not None:
+                                facts += linear.atom_facts(op, l_, r_)
+                evs = [st[1] for st in path if st[0] == "ev"]
+                moves = [e for e in evs if classify_store(e, d, inst, aliases, linit, {}) is not None]
+                ge = linear.entails(facts, Lin({"pos": 1, "S": -1}), ())          # pos >= size established
+                lt_ = linear.entails(facts, Lin({"S": 1, "pos": -1, "": -1}), ())  # pos < size established
+                if ge:
+                    if moves or not any(this_call(e, {"reset"}) for e in evs):
+                        g_bad = "on the path where pos >= size() the bitset is not simply cleared with reset()"
+                    else:
+                        saw_clear = True
+                elif moves and not lt_:
+                    g_bad = "blocks are moved on a path that did not establish pos < size()"
+            if g_bad is None and not saw_clear:
+                g_bad = "no path tests pos >= size() and clears the bitset"
+            if g_bad is None:
                 rep.holds(R, lab, "shift by >= size() clears", where=d.where(fn))
             else:
-                rep.violates(R, lab, "shift by >= size() clears", where=d.where(fn), detail="the first test is not `pos >= m_size` leading to reset() without block moves")
+                rep.violates(R, lab, "shift by >= size() clears", where=d.where(fn), detail=g_bad)
 
             # stores with their loop context
             def loops_above(n):
                 out = []
                 p = d.parent_of(n)
                 while p is not None and p is not fn:
-                    if p.get("kind") == "ForStmt":
+                    if p.get("kind") in ("ForStmt", "WhileStmt"):
                         out.append(p)
                     p = d.parent_of(p)
                 return out
 
+            def norm_cond(c):
+                """strip negations: (op, lhs, rhs) of a relational condition"""
+                neg = False
+                while c[0] == "un" and c[1] == "!":
+                    c, neg = c[2], not neg
+                while c[0] == "cast":
+                    c = c[3]
+                if c[0] != "bin" or c[1] not in linear.NEG:
+                    return None
+                op = linear.NEG[c[1]] if neg else c[1]
+                return (op, c[2], c[3])
+
             def loop_range(fs):
-                """ForStmt -> (var name, lo Lin, hi Lin) for the shapes `for (i = A; i < B; ++i)`, `i <= B`, `for (i = A; i > B; --i)`"""
+                """ForStmt / WhileStmt -> (var name, lo Lin, hi Lin) for counting loops: `for (i = A; i < B; ++i)`, `i <= B`, `for (i = A; i > B; --i)`, and
+                `T i = A; while (i > B) { ...; --i; }` (step as the last statement of the body)"""
+                if fs.get("kind") == "WhileStmt":
+                    raw2 = [c_ for c_ in fs.get("inner", []) if isinstance(c_, dict) and c_.get("kind")]
+                    cnd = norm_cond(ir.sx(raw2[-2]))
+                    body_ = raw2[-1]
+                    stmts_ = ir.kids(body_) if body_.get("kind") == "CompoundStmt" else [body_]
+                    if cnd is None or not stmts_:
+                        return None
+                    stp = ir.sx(stmts_[-1])
+                    if stp[0] != "un" or stp[1] not in ("++", "--", "post++", "post--") or stp[2][0] != "ref":
+                        return None
+                    v = stp[2][1]
+                    # the variable must not be modified elsewhere in the body
+                    mods = [x for x in ir.walk_expr(body_) if x.get("kind") in ("UnaryOperator", "BinaryOperator", "CompoundAssignOperator") and
+                            ((x.get("kind") == "UnaryOperator" and x.get("opcode") in ("++", "--")) or (x.get("opcode", "").endswith("=") and x.get("opcode") not in ("==", "!=", "<=", ">=")))
+                            and ir.sx(ir.ekids(x)[0]) == ("ref", v)]
+                    if len(mods) != 1:
+                        return None
+                    vd = names.get(v)
+                    if vd is None or not ir.ekids(vd):
+                        return None
+                    a = lin_of_init(vd)
+                    op, l_, r_ = cnd
+                    if r_ == ("ref", v):
+                        l_, r_ = r_, l_
+                        op = {"<": ">", ">": "<", "<=": ">=", ">=": "<="}.get(op, op)
+                    if l_ != ("ref", v) or a is None:
+                        return None
+                    bnd = lin_of(r_)
+                    if bnd is None:
+                        return None
+                    if stp[1] in ("++", "post++") and op in ("<", "<="):
+                        return (v, a, bnd - Lin({"": 1}) if op == "<" else bnd)
+                    if stp[1] in ("--", "post--") and op in (">", ">="):
+                        return (v, bnd + Lin({"": 1}) if op == ">" else bnd, a)
+                    return None
                 raw = fs.get("inner", [])
                 init, cond, inc = raw[0], raw[2], raw[3]
                 vds = [c for c in ir.kids(init) if c.get("kind") == "VarDecl"] if isinstance(init, dict) else []
